@@ -95,7 +95,7 @@ type NamedMetrics struct {
 }
 
 type ProgCounters struct {
-	Prog                            string `json:"prog"`
+	Prog                         string `json:"prog"`
 	Loads, Errs, Unloads, RtErrs int64
 }
 
@@ -103,7 +103,7 @@ type Counters struct {
 	Lines    int64          `json:"lines"`
 	RawLines int64          `json:"raw_lines"`
 	Sent     int64          `json:"sent"`
-	Progs []ProgCounters `json:"progs"`
+	Progs    []ProgCounters `json:"progs"`
 }
 
 type Snap struct {
